@@ -682,6 +682,23 @@ impl BinArchive {
     }
 }
 
+#[cfg(mila_verif)]
+impl BinArchive {
+    /// Verification hook (only with `--cfg mila_verif`): the pending c-strings as
+    /// (cell address, text) pairs sorted by address. They are otherwise only visible
+    /// after a serialize -> from_bytes round trip.
+    pub fn verif_pending_c_strings(&self) -> Vec<(usize, String)> {
+        let mut result: Vec<(usize, String)> = Vec::new();
+        for (text, addresses) in &self.cstrings {
+            for address in addresses {
+                result.push((*address, text.clone()));
+            }
+        }
+        result.sort();
+        result
+    }
+}
+
 #[cfg(test)]
 mod tests {
     use super::BinArchive;
